@@ -228,6 +228,61 @@ func checkVerifyArgs(p *an.Prog, r *an.Run, a *authCtx, ep *Endpoint, g ssa.Call
 			}
 		}
 	}
+	// the parameters are verified as received: no write to a request parameter can reach the verify call
+	// (a clamped, defaulted or normalised parameter is not what the caller signed)
+	prmSet := map[*ssa.Parameter]bool{ep.Sig: true, ep.ID: true, ep.Nonce: true}
+	for _, ex := range ep.Extra {
+		prmSet[ex] = true
+	}
+	an.AllInstrs(ep.Fn, func(in ssa.Instruction) {
+		st, ok := in.(*ssa.Store)
+		if !ok {
+			return
+		}
+		root, _ := an.RootPath(st.Addr)
+		al, ok := root.(*ssa.Alloc)
+		if !ok {
+			return
+		}
+		var owner *ssa.Parameter
+		for _, ref := range *al.Referrers() {
+			if s0, ok := ref.(*ssa.Store); ok && s0.Addr == ssa.Value(al) {
+				if prm, ok := s0.Val.(*ssa.Parameter); ok && prmSet[prm] {
+					owner = prm
+					if s0 == st {
+						return // the spill itself
+					}
+				}
+			}
+		}
+		if owner == nil {
+			return
+		}
+		reaches := false
+		if st.Block() == g.Block() {
+			for _, x := range st.Block().Instrs {
+				if x == ssa.Instruction(st) {
+					reaches = true
+					break
+				}
+				if x == g.(ssa.Instruction) {
+					break
+				}
+			}
+		}
+		if !reaches {
+			var starts []*ssa.BasicBlock
+			for i, sc := range st.Block().Succs {
+				if !an.DeadEdge(st.Block(), i) {
+					starts = append(starts, sc)
+				}
+			}
+			reaches = an.ReachFrom(starts, nil)[g.Block()]
+		}
+		if reaches {
+			bad = append(bad, "request parameter "+owner.Name()+" is modified at "+p.Pos(st.Pos())+" before it is verified: the signature is checked over server-altered values")
+		}
+	})
 	key := name
 	if gi > 0 {
 		key = name + "#" + itoa(gi+1)
@@ -439,6 +494,27 @@ func checkHashCovers(p *an.Prog, r *an.Run) {
 				if !dd.HasFieldNamed(typ, w) {
 					okHash = false
 					why = append(why, "argument "+itoa(i)+" of assemble does not derive from field "+w)
+				}
+				if w == "Nonce" || w == idField {
+					// the nonce and the identity enter the signed message as themselves: a converted, rounded or
+					// normalised value makes neighbouring nonces / other spellings verify under one signature
+					for _, nd := range dd.Nodes {
+						switch x := nd.(type) {
+						case *ssa.Convert:
+							sb, _ := x.X.Type().Underlying().(*types.Basic)
+							tb, _ := x.Type().Underlying().(*types.Basic)
+							if (sb != nil && sb.Info()&types.IsNumeric != 0) || (tb != nil && tb.Info()&types.IsNumeric != 0) {
+								okHash = false
+								why = append(why, "field "+w+" is converted ("+x.X.Type().String()+" -> "+x.Type().String()+") before it is signed")
+							}
+						case *ssa.BinOp:
+							okHash = false
+							why = append(why, "field "+w+" is combined by '"+x.Op.String()+"' before it is signed")
+						case *ssa.Call:
+							okHash = false
+							why = append(why, "field "+w+" passes through "+callName(x)+" before it is signed")
+						}
+					}
 				}
 				for _, other := range want {
 					if other != w && dd.HasFieldNamed(typ, other) {
@@ -748,6 +824,10 @@ func runC06(p *an.Prog, r *an.Run, tier string) {
 	a := buildAuth(p)
 	r.Floor("signed-endpoints", len(a.endpoints), 7)
 	r.Floor("verify-wrappers", len(a.wrappers), 2)
+	// "refused" presupposes that a request altered in its nonce is refused at all: the signed bytes carry the exact nonce
+	// and identity (same rule as C04.hash-covers). A rounded nonce lets a forged, nonce-raised copy through, which then
+	// consumes the owner's nonce and leaves every trace a valid request leaves.
+	checkHashCovers(p, r)
 	for _, w := range a.wrappers {
 		name := an.FuncName(w)
 		r.Analysed(name)
